@@ -9,7 +9,6 @@ package main
 import (
 	"fmt"
 	"os"
-	"path/filepath"
 	"strings"
 	"time"
 
@@ -26,16 +25,25 @@ func refreshEngine(args []string) error {
 		return err
 	}
 	defer os.RemoveAll(dir)
-	hf := filepath.Join(dir, "hosts")
-	if err := os.WriteFile(hf, []byte("127.0.0.1 localhost\n"), 0644); err != nil {
+	// a scratch /etc (private mount namespace): /etc/hosts is a regular file in some histories and, as on many
+	// routers, a symbolic link to a file elsewhere in others
+	if err := bindOver(dir, "/etc"); err != nil {
 		return err
 	}
-	if err := bindOver(hf, "/etc/hosts"); err != nil {
-		return err
-	}
+	_ = os.MkdirAll("/etc/real", 0755)
+	hf := "/etc/hosts"
 	base := time.Now().Add(-1000 * 24 * time.Hour).Truncate(time.Second)
 	for h := 0; h < c.n; h++ {
 		hosts := &discovery.Hosts{}
+		_ = os.Remove("/etc/hosts")
+		_ = os.Remove("/etc/real/hosts")
+		linked := h%3 == 2
+		hf = "/etc/hosts"
+		if linked {
+			hf = "/etc/real/hosts" // what gets rewritten is the link's target; the link itself never changes
+			_ = os.WriteFile(hf, nil, 0644)
+			_ = os.Symlink("real/hosts", "/etc/hosts")
+		}
 		// a small pool of contents for this history (some of equal length, so that only the stamp tells them apart)
 		var pool []string
 		for i := r.rng(2, 4); i > 0; i-- {
